@@ -220,8 +220,8 @@ func ruleRequestPortMapping(c *Ctx, rule string) {
 // C12.R5 — network selection order and interface naming.
 func ruleNetworkSelection(c *Ctx, rule string) {
 	if fn := c.MustFn(rule, galaxyPkg, "(*Galaxy).resolveNetworks"); fn != nil {
-		gets := calls(fn, "(*Galaxy).getNetworkConf")
-		parse := calls(fn, "pkg/api/k8s.ParsePodNetworkAnnotation")
+		gets := callsAllX(fn, "(*Galaxy).getNetworkConf")
+		parse := callsAllX(fn, "pkg/api/k8s.ParsePodNetworkAnnotation")
 		if len(gets) != 3 || len(parse) != 1 {
 			c.undecided(rule, fn, "getNetworkConf x3 / ParsePodNetworkAnnotation", nil, fmt.Sprintf("found %d getNetworkConf and %d ParsePodNetworkAnnotation calls", len(gets), len(parse)))
 		} else {
@@ -350,7 +350,7 @@ func ruleStateFileOwnership(c *Ctx, rule string) {
 		if fn.Pkg.Pkg.Path() != modPath+cniutilPkg {
 			continue
 		}
-		for _, rm := range calls(fn, "os.Remove", "os.RemoveAll") {
+		for _, rm := range callsLocal(fn, "os.Remove", "os.RemoveAll") {
 			n++
 			root := fn
 			for root.Parent() != nil {
